@@ -19,7 +19,7 @@ theorem C17_tables_correct_5_0 : ∀ a < 16, (positSqrtOk 5 0 a (tab posit_5_0_r
 theorem C17_tables_correct_8_0 : ∀ a < 128, (positSqrtOk 8 0 a (tab posit_8_0_roots a)).1 = true := by decide +kernel
 theorem C17_tables_correct_8_1 : ∀ a < 128, (positSqrtOk 8 1 a (tab posit_8_1_roots a)).1 = true := by decide +kernel
 
-/-- the <3,1> table after the repair of D1 (fix commit a64997b: entry 1 is 2 — sqrt(0.25) = 0.5 is exactly the Standard midpoint
+/-- the <3,1> table after the repair of D1 (fix commit b4a3837: entry 1 is 2 — sqrt(0.25) = 0.5 is exactly the Standard midpoint
     (the 4-bit posit 0011) between 0.25 (encoding 1, odd) and 1 (encoding 2, even), so the tie goes to encoding 2). -/
 theorem C17_tables_correct_3_1 : ∀ a < 4, (positSqrtOk 3 1 a (tab posit_3_1_roots a)).1 = true := by decide +kernel
 /-- the value the pinned snapshot held in entry 1 (encoding 1 = 0.25) is NOT the correctly rounded root: the table
